@@ -28,6 +28,13 @@ var solvers = []SolverCfg{
 	{Name: "cvc5-1.0", Cmd: []string{"cvc5", "--lang=smt2", "--arrays-exp"}, Pre: "(set-logic ALL)\n"},
 }
 
+// specAxioms: defining equations of uninterpreted specification functions, instantiated per application.
+var specAxioms = map[string]func(app *Term) []*Term{}
+
+// revealAxioms: definitions of opaque specification functions, used only by obligations
+// whose contract says `reveal <name>`.
+var revealAxioms = map[string]func(app *Term) []*Term{}
+
 var maxInstCandidates = 80
 var maxInstTotal = 6000
 
@@ -106,6 +113,34 @@ func (P *Prog) buildQuery(o *Obligation) (asserts []*Term, stats string) {
 			asserts = append(asserts, added...)
 		}
 		stats = fmt.Sprintf("%d instantiations of %d assumed quantifiers", total, len(o.Lazy))
+	}
+	// defining equations of specification functions, for every application in the query
+	if len(specAxioms)+len(revealAxioms) > 0 {
+		doneApp := map[int]bool{}
+		for round := 0; round < 3; round++ {
+			var added []*Term
+			for _, t := range collect(asserts) {
+				if t.Op != "app" || doneApp[t.id] {
+					continue
+				}
+				doneApp[t.id] = true
+				if ax, ok := specAxioms[t.Name]; ok {
+					added = append(added, ax(t)...)
+				}
+				// opaque functions: computational definition only where revealed
+				if rax, isOpaque := revealAxioms[t.Name]; isOpaque {
+					for _, r := range o.Reveal {
+						if "spec|"+r == t.Name {
+							added = append(added, rax(t)...)
+						}
+					}
+				}
+			}
+			if len(added) == 0 {
+				break
+			}
+			asserts = append(asserts, added...)
+		}
 	}
 	order := collect(asserts)
 	asserts = append(asserts, P.strFacts(order)...)
